@@ -796,10 +796,13 @@ func TestMonitor(t *testing.T) {
 		Property: "C20",
 		Level:    "exploration",
 		Rule: "forced orders in VIRTUAL time (testing/synctest bubble, go1.26.8, -race): a fake net.Conn with real deadline semantics, gates that park any I/O operation before it starts or after it finished, a scripted peer (responsive in 1/2/5 chunks, slow = one chunk per virtual second, silent from chunk j, non-101) and a full event log. Scenario list (fixed, ~900): cancel forced before and after EVERY I/O operation of the handshake (operation count taken from a dry run; write buffers giving 1-3 writes; ws and wss with a TLSClient stub) for cancel and deadline contexts; cancel while blocked on a silent peer; context deadline and Dialer.Timeout shorter/longer than the other or alone for Background/TODO/WithValue/WithCancel/WithDeadline contexts against silent and slow peers; expiry in the dial phase; cancel after Dial returned; non-101 answers; no event at all; cancel at every I/O operation with the watcher goroutine parked INSIDE its SetDeadline call (a slow system call) while the handshake I/O runs to its end with a 101 or a non-101 answer: Dial must still be waiting for it. " +
-			"Oracle per scenario: nil error => live conn, deadlines cleared; error => obtained conn closed; no conn method after return (3 virtual hours later); context ended before the I/O finished (forced) => errors.Is(err, ctx.Err()); return no later than min(context end, start+Timeout) on silent/slow peers; no spurious failure; no goroutine left blocked in the bubble (synctest deadlock detector). Plus the unforced race under the real scheduler (cancel after a PRNG-chosen spin), invariants only, outcome histogram in the evidence. distinct = (context kind, event@place, peer, timeout, outcome).",
+			"Oracle per scenario: nil error => live conn, deadlines cleared; error => obtained conn closed; no conn method after return (3 virtual hours later); context ended before the I/O finished (forced) => errors.Is(err, ctx.Err()); return no later than min(context end, start+Timeout) on silent/slow peers; no spurious failure; no goroutine left blocked in the bubble (synctest deadlock detector). Plus sequences under the real scheduler (dial-sequences: a Dial that was refused with a complete 400 while its context was being cancelled, then a Dial against a silent peer that only cancel / context deadline / Dialer.Timeout can end: it returns and closes its connection; a 60 s watchdog decides 'never returned'). Plus the unforced race under the real scheduler (cancel after a PRNG-chosen spin), invariants only, outcome histogram in the evidence. distinct = (context kind, event@place, peer, timeout, outcome).",
 		Assumptions: []string{"virtual time: no wall-clock value decides anything", "when cancellation races with completion (after the last I/O operation) either outcome is accepted, only the invariants are checked"},
 		HangSeconds: 300,
 		Subs: []mon.Sub{
+			// (first: it runs before any synctest bubble exists in this process - an object a bubble leaves in a
+			// package-level pool cannot be used outside of it, which the runtime punishes with a fatal error)
+			subSequences(),
 			{
 				Name: "forced-orders", Serial: true, Exhaustive: true, Required: true,
 				N: func(string) int { return len(buildScenarios(t)) },
